@@ -235,7 +235,7 @@ LOCK_BOUNDS = ("real lock object: 2 readers + 2 writers with 1 preemption, 2 rea
                "real File: 1 writer (commit / rollback / close / failing commit, optional Flush) against 1-2 readers with 1 preemption (thorough: 1 reader with 2); "
                "context switches only at sync operations (Mutex/Cond/WaitGroup), at goroutine start and at harness yield points; Cond.Signal wakes a solver-chosen waiter")
 prop("C09", bounds=LOCK_BOUNDS,
-     outside="more threads / preemptions; data races below the granularity of sync operations (the engine interleaves only at sync operations; no happens-before tracking); File.Close racing with a new Begin",
+     outside="more threads / preemptions; interleavings below the granularity of sync operations are not explored (unsynchronised accesses are still reported by the happens-before tracker, for struct fields, variables, maps and small arrays; page buffers and the mapping are not tracked byte-wise); File.Close racing with a new Begin",
      harnesses=[
          HS(200, "txfile.VerifLockProtocol", "mutual exclusion of writers, exclusive vs shared sections, no deadlock / lost wake-up, lock idle at the end", "2R+2W, 1 preemption",
            quick={"params": {"readers": 2, "writers": 2, "preempt": 1}}, thorough={"params": {"readers": 2, "writers": 2, "preempt": 2}, "max_paths": 400000, "budget": "900s"}),
@@ -336,7 +336,7 @@ prop("C17", bounds=PQ_BOUNDS, outside=PQ_OUT,
 
 prop("C13", bounds=PQ_BOUNDS + "; one producer goroutine (Write, Next, optional Flush per event, final Flush) and one consumer goroutine (Begin, Next, Read, Done, ACK(1) per event, bounded polling) "
             "under a symbolic scheduler: 1 preemption at sync operations (thorough: 2), context switches at blocking operations and polling yields, 2 events x 2 sizes (thorough: 3 events)",
-     outside=PQ_OUT + "; more preemptions; data races below the granularity of sync operations (argued from C02/C09: producer and consumer share only the File, whose transactions are serialised by the lock checked there)",
+     outside=PQ_OUT + "; more preemptions; interleavings below the granularity of sync operations (unsynchronised accesses of producer and consumer to shared fields are reported by the happens-before tracker on every explored schedule; page buffers are not tracked byte-wise)",
      harnesses=[
          HS(50, "pq.VerifQueueConcurrent", "consumer receives exactly the produced sequence in order, ACK never fails / never removes unread events or the writer's page, no deadlock, queue consistent afterwards",
             "2 events, 1 preemption", quick={"params": {"events": 2, "preempt": 1, "nsizes": 2}, "max_paths": 200000},
